@@ -2,6 +2,9 @@ package main
 
 import (
 	"fmt"
+	"go/ast"
+	"go/token"
+	"go/types"
 	"os"
 	"regexp"
 	"strings"
@@ -226,4 +229,80 @@ func checkC03Table(c *Ctx) {
 	}
 	cf.checkTable("bounds.table.equality", rows,
 		"`==a` absorbs a bound that a satisfies; `!=a` is dropped only when the other bound already excludes a; in every other class both constraints are kept")
+}
+
+// checkC03Destinations: apd.Decimal holds its coefficient behind a pointer, so
+// `lo := a.X` shares the digits of the bound's operand. An apd operation whose
+// destination is such a shallow copy rewrites the operand of the bound in
+// place — the bound that is later validated against the final scalar is no
+// longer the one the user wrote. Every apd call in SimplifyBounds must write
+// to a decimal that was reset (`= apd.Decimal{}`) or declared fresh after the
+// last shallow copy.
+func checkC03Destinations(c *Ctx) {
+	f := c.fn(adtP, "SimplifyBounds")
+	g := c.graph(f)
+	info := f.Info()
+	isDecimal := func(t types.Type) bool {
+		return t != nil && strings.HasSuffix(t.String(), "apd/v3.Decimal")
+	}
+	// shallow copies: assignments of a Decimal value taken from something else than a composite literal
+	copyNodes := map[types.Object][]int{}
+	freshNodes := map[types.Object]map[int]bool{}
+	for _, nd := range g.Nodes {
+		as, ok := nd.N.(*ast.AssignStmt)
+		if !ok || len(as.Lhs) != len(as.Rhs) {
+			continue
+		}
+		for i, l := range as.Lhs {
+			o := identObj(info, l)
+			if o == nil || !isDecimal(info.TypeOf(l)) {
+				continue
+			}
+			if _, isLit := ast.Unparen(as.Rhs[i]).(*ast.CompositeLit); isLit {
+				if freshNodes[o] == nil {
+					freshNodes[o] = map[int]bool{}
+				}
+				freshNodes[o][nd.ID] = true
+			} else {
+				copyNodes[o] = append(copyNodes[o], nd.ID)
+			}
+		}
+	}
+	n := 0
+	for id, nd := range g.Nodes {
+		if nd.N == nil {
+			continue
+		}
+		for _, call := range callsIn(nd.N, false) {
+			sel, ok := ast.Unparen(call.Fun).(*ast.SelectorExpr)
+			if !ok || len(call.Args) < 2 {
+				continue
+			}
+			// an arithmetic method whose first parameter is the *apd.Decimal destination
+			sg, _ := info.TypeOf(call.Fun).(*types.Signature)
+			if sg == nil || sg.Params().Len() < 2 || !strings.HasSuffix(sg.Params().At(0).Type().String(), "apd/v3.Decimal") {
+				continue
+			}
+			u, ok := ast.Unparen(call.Args[0]).(*ast.UnaryExpr)
+			if !ok || u.Op != token.AND {
+				continue
+			}
+			dst := identObj(info, u.X)
+			if dst == nil {
+				continue
+			}
+			n++
+			okd := true
+			for _, cp := range copyNodes[dst] {
+				// from the shallow copy to the call without a reset in between?
+				r := g.reach([]int{cp}, func(x int) bool { return freshNodes[dst][x] }, nil)
+				if r[id] {
+					okd = false
+				}
+			}
+			c.check("bounds.apd-destination-not-shared", fmt.Sprintf("%s#%s%d", f.Name, sel.Sel.Name, n), call.Pos(), okd,
+				"the destination "+exprString(call.Args[0])+" of "+sel.Sel.Name+" must not be a shallow copy of a bound's operand (apd.Decimal shares its coefficient through a pointer): reset it to apd.Decimal{} first, or the operand of the recorded bound is rewritten and the final validation compares against a different number")
+		}
+	}
+	c.expect("bounds.apd-destination-not-shared", 5)
 }
